@@ -13,7 +13,8 @@ theorem ensureFormat_fields (c : Config) (s : State) :
     (ensureFormat c s).lastWriteTime = s.lastWriteTime ∧ (ensureFormat c s).writeCount = s.writeCount ∧
     (ensureFormat c s).displayedStep = s.displayedStep ∧ (ensureFormat c s).stepWidth = s.stepWidth ∧
     (ensureFormat c s).messages = s.messages ∧ (ensureFormat c s).startTime = s.startTime ∧
-    (ensureFormat c s).secContent = s.secContent ∧ (ensureFormat c s).secLines = s.secLines := by
+    (ensureFormat c s).secContent = s.secContent ∧ (ensureFormat c s).secLines = s.secLines ∧
+    (ensureFormat c s).displayedLineCount = s.displayedLineCount := by
   unfold ensureFormat
   cases s.format <;> simp
 
@@ -39,13 +40,26 @@ theorem overwrite_fields (c : Config) (s : State) (t : Nat) (msg : Str) :
     (overwrite c s t msg).1.formatLineCount = s.formatLineCount ∧
     (overwrite c s t msg).1.format = s.format ∧
     (overwrite c s t msg).1.lastLen = maxLen ((splitNL msg).map (ljust s.lastLen)) := by
-  unfold overwrite
+  unfold overwrite overwriteWith
   cases hk : c.kind <;> simp [secClear_fields, secWrite_fields]
+
+/-- every `_overwrite` records the line count of what it wrote (repair of D39) -/
+theorem overwrite_displayedLineCount (b : Bool) (c : Config) (s : State) (t : Nat) (msg : Str) :
+    (overwriteWith b c s t msg).1.displayedLineCount = some s.formatLineCount := by
+  unfold overwriteWith
+  cases hk : c.kind <;> simp [secClear_fields, secWrite_fields]
+
+/-- nothing to move back over: a single-line format and a single-line frame (or none) standing there -/
+theorem moveCount_zero (b : Bool) (s : State) (hflc : s.formatLineCount = 0)
+    (hd : s.displayedLineCount.getD 0 = 0) : moveCount b s = 0 := by
+  unfold moveCount
+  cases b <;> simp [hflc]
+  simpa [hflc] using hd
 
 
 theorem overwrite_displayedMax (c : Config) (s : State) (t : Nat) (msg : Str) :
     (overwrite c s t msg).1.displayedMax = some s.max := by
-  unfold overwrite
+  unfold overwrite overwriteWith
   cases hk : c.kind <;> simp [secClear_fields, secWrite_fields]
 
 theorem secClear_percent (c : Config) (s : State) (n : Nat) : (secClear c s n).1.percent = s.percent := by
@@ -56,7 +70,7 @@ theorem secWrite_percent (c : Config) (s : State) (x : Str) : (secWrite c s x).1
 
 theorem overwrite_percent (c : Config) (s : State) (t : Nat) (msg : Str) :
     (overwrite c s t msg).1.percent = s.percent := by
-  unfold overwrite
+  unfold overwrite overwriteWith
   cases hk : c.kind <;> simp [secClear_percent, secWrite_percent]
 
 /-! ## `display` by cases -/
@@ -485,7 +499,7 @@ theorem step_frameOf (c : Config) (s : State) (op : Op) (t : Nat) (f : Frame) (h
 
 theorem overwrite_quiet (c : Config) (s : State) (t : Nat) (msg : Str) (hq : c.quiet = true) :
     (overwrite c s t msg).2 = [] := by
-  unfold overwrite
+  unfold overwrite overwriteWith
   cases hk : c.kind <;> simp [emit, hq, secClear, secWrite] <;> split <;> simp
 
 theorem setProgress_quiet (c : Config) (s : State) (t : Nat) (k : Int) (hq : c.quiet = true) :
@@ -575,7 +589,7 @@ theorem step_at_max (c : Config) (s : State) (op : Op) (t : Nat) (hq : c.quiet =
 
 theorem overwrite_writes_ne (c : Config) (s : State) (t : Nat) (msg : Str) (hq : c.quiet = false) :
     (overwrite c s t msg).2 ≠ [] := by
-  unfold overwrite
+  unfold overwrite overwriteWith
   cases hk : c.kind <;> simp [emit, hq, secWrite]
 
 /-- on an output that is not quiet: a call that wrote nothing leaves `_last_write_time` alone, a
@@ -838,10 +852,12 @@ theorem run_shown (c : Config) (hq : c.quiet = false) (how : c.overwrite = false
 /-! ## Every call is silent or one `_overwrite` -/
 
 def Silent (s : State) (r : Res) : Prop :=
-  r.writes = [] ∧ r.frame = none ∧ r.st.lastLen = s.lastLen ∧ r.st.writeCount = s.writeCount
+  r.writes = [] ∧ r.frame = none ∧ r.st.lastLen = s.lastLen ∧ r.st.writeCount = s.writeCount ∧
+    r.st.displayedLineCount = s.displayedLineCount
 
 def Wrote (c : Config) (s : State) (t : Nat) (r : Res) : Prop :=
   ∃ (s' : State) (msg : Str), s'.lastLen = s.lastLen ∧ s'.writeCount = s.writeCount ∧
+    s'.displayedLineCount = s.displayedLineCount ∧
     r.st = (overwrite c s' t msg).1 ∧ r.writes = (overwrite c s' t msg).2 ∧
     ((r.frame = none ∧ msg = List.replicate s'.formatLineCount '\n' ∧ c.overwrite = true) ∨
      (∃ f, r.frame = some f ∧ f.text = msg))
@@ -853,7 +869,8 @@ theorem display_shape (c : Config) (s : State) (t : Nat) (hq : c.quiet = false) 
   | ok text =>
     right
     rw [display_ok c s t hq text hb]
-    exact ⟨ensureFormat c s, text, by simp [ensureFormat_fields], by simp [ensureFormat_fields], rfl, rfl,
+    exact ⟨ensureFormat c s, text, by simp [ensureFormat_fields], by simp [ensureFormat_fields],
+      by simp [ensureFormat_fields], rfl, rfl,
       Or.inr ⟨_, rfl, by simp [frameOf]⟩⟩
 
 theorem setProgress_shape (c : Config) (s : State) (t : Nat) (k : Int) (hq : c.quiet = false) :
@@ -880,7 +897,8 @@ theorem step_shape (c : Config) (s : State) (op : Op) (t : Nat) (hq : c.quiet = 
     · left; simp [Silent]
     · right
       rename_i how
-      exact ⟨ensureFormat c s, _, by simp [ensureFormat_fields], by simp [ensureFormat_fields], rfl, rfl,
+      exact ⟨ensureFormat c s, _, by simp [ensureFormat_fields], by simp [ensureFormat_fields],
+        by simp [ensureFormat_fields], rfl, rfl,
         Or.inl ⟨rfl, rfl, by simpa using how⟩⟩
   | finish =>
     simp only [step]
@@ -934,15 +952,17 @@ theorem maxLen_single (x : Str) : maxLen [x] = x.length := by simp [maxLen]
 length is `_last_messages_length` this leaves exactly the padded text, and the new
 `_last_messages_length` is its length -/
 theorem overwrite_ansi_line (c : Config) (s : State) (t : Nat) (msg : Str) (l : Line)
-    (hk : c.kind = .ansi) (hq : c.quiet = false) (hflc : s.formatLineCount = 0) (hmsg : Clean msg)
+    (hk : c.kind = .ansi) (hq : c.quiet = false) (hflc : s.formatLineCount = 0)
+    (hd : s.displayedLineCount.getD 0 = 0) (hmsg : Clean msg)
     (hl : l.text.length = s.lastLen) :
     (l.feed (overwrite c s t msg).2).text = ljust s.lastLen msg ∧
     (overwrite c s t msg).1.lastLen = (ljust s.lastLen msg).length := by
   have hsplit := splitNL_clean msg (fun ch hch => (hmsg ch hch).1)
   have hcl := ljust_clean s.lastLen msg hmsg
   constructor
-  · unfold overwrite
-    simp only [hk, hflc, hsplit, emit, hq]
+  · unfold overwrite overwriteWith
+    simp only [hk, moveCount_zero _ s hflc hd, hflc, hsplit, emit, hq, ne_eq, not_true_eq_false, and_false,
+      if_false]
     simp only [List.map, joinNL, Line.feed, List.foldl, ne_eq, not_true_eq_false, if_false,
       List.append_nil, List.cons_append, List.nil_append, Bool.false_eq_true]
     rw [puts_plain _ _ (fun ch hch => (hcl ch hch).2)]
@@ -957,26 +977,28 @@ theorem overwrite_ansi_line (c : Config) (s : State) (t : Nat) (msg : Str) (l : 
 
 theorem step_ansi_line (c : Config) (s : State) (op : Op) (t : Nat) (l : Line)
     (hk : c.kind = .ansi) (hq : c.quiet = false) (hl : l.text.length = s.lastLen)
+    (hd : s.displayedLineCount.getD 0 = 0)
     (hflc : (step c s op t).st.formatLineCount = 0)
     (hclean : ∀ f, (step c s op t).frame = some f → Clean f.text) :
+    (step c s op t).st.displayedLineCount.getD 0 = 0 ∧
     (l.feed (step c s op t).writes).text.length = (step c s op t).st.lastLen ∧
     (∀ f, (step c s op t).frame = some f → (l.feed (step c s op t).writes).text = ljust s.lastLen f.text) ∧
     ((step c s op t).frame = none → (step c s op t).writes ≠ [] →
       (l.feed (step c s op t).writes).text = spaces s.lastLen) := by
   rcases step_shape c s op t hq with h | h
-  · obtain ⟨h1, h2, h3, _⟩ := h
-    rw [h1, h3]
-    simp [Line.feed, hl, h2]
-  · obtain ⟨s', msg, hs1, _, hs3, hs4, hs5⟩ := h
+  · obtain ⟨h1, h2, h3, _, h5⟩ := h
+    rw [h1, h3, h5]
+    simp [Line.feed, hl, h2, hd]
+  · obtain ⟨s', msg, hs1, _, hsd, hs3, hs4, hs5⟩ := h
     have hflc' : s'.formatLineCount = 0 := by
       rw [hs3, (overwrite_fields c s' t msg).2.2.2.2.2.1] at hflc; exact hflc
     have hmsg : Clean msg := by
       rcases hs5 with ⟨_, hm, _⟩ | ⟨f, hf, hm⟩
       · rw [hm, hflc']; intro ch hch; simp at hch
       · rw [← hm]; exact hclean f hf
-    have := overwrite_ansi_line c s' t msg l hk hq hflc' hmsg (by rw [hs1]; exact hl)
+    have := overwrite_ansi_line c s' t msg l hk hq hflc' (by rw [hsd]; exact hd) hmsg (by rw [hs1]; exact hl)
     rw [hs4, hs3, this.1, this.2]
-    refine ⟨rfl, ?_, ?_⟩
+    refine ⟨by unfold overwrite; rw [overwrite_displayedLineCount, hflc']; rfl, rfl, ?_, ?_⟩
     · intro f hf
       rcases hs5 with ⟨hn, _, _⟩ | ⟨f', hf', hm⟩
       · rw [hn] at hf; cases hf
@@ -998,7 +1020,7 @@ theorem screen_append (a b : List Event) : ∀ l, screen l (a ++ b) = screen (sc
 padded with blanks to the length of the longest text written before -/
 theorem run_ansi_line (c : Config) (hk : c.kind = .ansi) (hq : c.quiet = false) (evs1 : List Event) :
     ∀ (s : State) (ops : List (Op × Nat)) (l : Line) (e : Event) (evs2 : List Event),
-      l.text.length = s.lastLen →
+      l.text.length = s.lastLen → s.displayedLineCount.getD 0 = 0 →
       (∀ e' ∈ run c s ops, e'.res.st.formatLineCount = 0 ∧ ∀ f, e'.res.frame = some f → Clean f.text) →
       run c s ops = evs1 ++ e :: evs2 →
       (screen l (evs1 ++ [e])).text.length = e.res.st.lastLen ∧
@@ -1006,7 +1028,7 @@ theorem run_ansi_line (c : Config) (hk : c.kind = .ansi) (hq : c.quiet = false) 
       (e.res.frame = none → e.res.writes ≠ [] → (screen l (evs1 ++ [e])).text = spaces e.pre.lastLen) := by
   induction evs1 with
   | nil =>
-    intro s ops l e evs2 hl hall h
+    intro s ops l e evs2 hl hd hall h
     cases ops with
     | nil => simp [run] at h
     | cons x rest =>
@@ -1014,11 +1036,11 @@ theorem run_ansi_line (c : Config) (hk : c.kind = .ansi) (hq : c.quiet = false) 
       rw [run_cons] at h hall
       simp at h
       have h0 := hall ⟨op, t, s, step c s op t⟩ (by simp)
-      have := step_ansi_line c s op t l hk hq hl h0.1 h0.2
+      have := (step_ansi_line c s op t l hk hq hl hd h0.1 h0.2).2
       rw [← h.1]
       simpa [screen] using this
   | cons e1 evs1 ih =>
-    intro s ops l e evs2 hl hall h
+    intro s ops l e evs2 hl hd hall h
     cases ops with
     | nil => simp [run] at h
     | cons x rest =>
@@ -1026,8 +1048,8 @@ theorem run_ansi_line (c : Config) (hk : c.kind = .ansi) (hq : c.quiet = false) 
       rw [run_cons] at h hall
       simp at h
       have h0 := hall ⟨op, t, s, step c s op t⟩ (by simp)
-      have hstep := step_ansi_line c s op t l hk hq hl h0.1 h0.2
-      have := ih (step c s op t).st rest (l.feed (step c s op t).writes) e evs2 hstep.1
+      have hstep := step_ansi_line c s op t l hk hq hl hd h0.1 h0.2
+      have := ih (step c s op t).st rest (l.feed (step c s op t).writes) e evs2 hstep.2.1 hstep.1
         (fun e' he' => hall e' (by simp [he'])) h.2
       rw [← h.1]
       simpa [screen_cons] using this
@@ -1047,7 +1069,7 @@ theorem overwrite_plain_out (c : Config) (s : State) (t : Nat) (msg : Str)
     (how : c.overwrite = false) (hq : c.quiet = false) :
     (overwrite c s t msg).2.flatten =
       (if s.writeCount > 0 then ['\n'] else []) ++ paddedText s.lastLen msg := by
-  unfold overwrite paddedText
+  unfold overwrite overwriteWith paddedText
   cases hk : c.kind <;> simp [Config.overwrite, hk] at how <;> simp [emit, hq] <;> split <;> simp
 
 theorem step_plain (c : Config) (s : State) (op : Op) (t : Nat)
@@ -1059,8 +1081,8 @@ theorem step_plain (c : Config) (s : State) (op : Op) (t : Nat)
         (if s.writeCount > 0 then ['\n'] else []) ++ paddedText s.lastLen f.text ∧
       (step c s op t).st.writeCount = s.writeCount + 1) := by
   rcases step_shape c s op t hq with h | h
-  · exact Or.inl ⟨h.1, h.2.1, h.2.2.2⟩
-  · obtain ⟨s', msg, hs1, hs2, hs3, hs4, hs5⟩ := h
+  · exact Or.inl ⟨h.1, h.2.1, h.2.2.2.1⟩
+  · obtain ⟨s', msg, hs1, hs2, _, hs3, hs4, hs5⟩ := h
     rcases hs5 with ⟨_, _, h⟩ | ⟨f, hf, hm⟩
     · rw [how] at h; cases h
     · right
